@@ -9,6 +9,7 @@ from vf.stdio_harness import run_stdio_script
 
 ID = "C05"
 LEVEL = "exploration"
+BACKENDS = ["pydantic", "fallback"]   # every case is executed under both validation backends
 SHARDS = {"quick": 8, "thorough": 16}
 BUDGET_S = {"quick": 100.0, "thorough": 900.0}
 TECHNIQUE = ("runtime monitoring: read-stream and notification-stream recorder on the real StdioClient fed by a scripted "
@@ -184,22 +185,24 @@ def cut(stream, cuts):
     return [p for p in pieces if len(p) or not cuts]
 
 
-def transcript(stream: bytes, mode: str, cuts: List[int]):
+def transcript(stream: bytes, mode: str, cuts: List[int], drain_notifications: bool = True):
     data: Any = stream if mode == "bytes" else stream.decode("utf-8")
     pieces = cut(data, cuts)
     steps = []
     for p in pieces:
         steps += [("feed", p), ("settle",)]
-    out = run_stdio_script(steps)
+    out = run_stdio_script(steps, drain_notifications=drain_notifications)
     read = [norm_any(m) for m in out["read"]]
     notes = [norm_any(m) for m in out["notes"]]
     return read, notes, out["reader_alive"], out["stdin"], [norm_any(m) for m in out.get("late", [])]
 
 
-def check_one(ctx, sid: int, spec, stream: bytes, mode: str, cuts: List[int], baseline) -> None:
+def check_one(ctx, sid: int, spec, stream: bytes, mode: str, cuts: List[int], baseline, drain_notifications: bool = True) -> None:
     case = {"spec": [list(s) for s in spec], "mode": mode, "cuts": cuts}
+    if not drain_notifications:
+        case["drain_notifications"] = False
     try:
-        read, notes, alive, stdin, late = transcript(stream, mode, cuts)
+        read, notes, alive, stdin, late = transcript(stream, mode, cuts, drain_notifications)
     except Exception as e:  # noqa
         ctx.violation("reader_crashed_harness", f"session failed: {e!r}", case)
         ctx.record(case, shape="crash")
@@ -236,7 +239,7 @@ def check_one(ctx, sid: int, spec, stream: bytes, mode: str, cuts: List[int], ba
             mech = "transcript_differs"
         ctx.violation(mech, f"read stream differs from reference framing: {why}", case)
     okn, whyn = seq_match(notes, exp_notes)
-    if alive and not okn:
+    if alive and not okn and drain_notifications:
         ctx.violation("notification_stream_differs", f"notification stream differs: {whyn}", case)
     if baseline is not None and alive and (read, notes) != baseline:
         ctx.violation("chunking_dependent", f"transcript under cuts {cuts[:8]} ({mode}) differs from the single-chunk "
@@ -258,6 +261,10 @@ def run(ctx):
         rng = ctx.sub_rng("cuts", sid)
         plan = chunkings(ctx, stream, rng)
         baseline = None
+        if ctx.backend == "fallback" and ctx.tier == "quick":
+            # both backends run in parallel processes: every second chunking (plus all
+            # single-chunk baselines) keeps the quick tier inside its budget; thorough runs the full plan
+            plan = [pc for j, pc in enumerate(plan) if not pc[1] or j % 2 == 0]
         for mode, cuts in plan:
             if not cuts:
                 # the single-chunk run is needed by every shard as the metamorphic baseline
@@ -272,6 +279,18 @@ def run(ctx):
             if ctx.out_of_time("chunkings"):
                 break
             check_one(ctx, sid, spec, stream, mode, cuts, baseline if cuts else None)
+    # many notifications while nobody reads client.notifications (the best-effort side stream fills up at 100):
+    # the main read stream must still carry every message
+    for k, n_notes in enumerate((120, 250) if ctx.tier == "quick" else (101, 120, 250, 1000)):
+        spec = []
+        for i in range(n_notes):
+            spec.append(("note" if i % 7 else "resp", TEXTS[i % len(TEXTS)], "LF" if i % 3 else "CRLF", False))
+        stream = build_stream(spec)
+        for cuts in ([], [len(stream) // 2], sorted({len(stream) // 3, 2 * len(stream) // 3})):
+            if not ctx.mine():
+                continue
+            check_one(ctx, 20_000 + k, [("undrained", str(n_notes), "mixed", False)], stream, "bytes", cuts, None,
+                      drain_notifications=False)
     # long streams with seeded cuts (thorough) / one medium stream (quick)
     rng = ctx.sub_rng("long")
     n_long = 1 if ctx.tier == "quick" else 8
@@ -373,7 +392,7 @@ def real_child_tier(ctx):
 
 def replay(ctx, case):
     spec = [tuple(s) for s in case["spec"]]
-    if spec and spec[0][0] == "long":
+    if spec and spec[0][0] in ("long", "undrained"):
         ctx.notes.append("long-stream replays are re-generated by the thorough run; not replayable standalone")
         return
     stream = build_stream(spec)
